@@ -36,7 +36,7 @@ theorem allFile_no_root (ops : List Op) : ∀ s : Sys, allFile s ops = true → 
 
 /-- the three kinds of burst the theorems cover -/
 def okBurst (s : Sys) (b : List Op) : Prop :=
-  allFile s b = true ∨ allGrow s.fs b = true ∨ (∃ op, b = [op] ∧ validOp s.fs op = true ∧ op ≠ .rmdir ["W"]) ∨
+  allFile s b = true ∨ allFill s.fs b = true ∨ (∃ op, b = [op] ∧ validOp s.fs op = true ∧ op ≠ .rmdir ["W"]) ∨
   (∃ p q, b = [.mkdir p, .rename p q] ∧ validOp s.fs (.mkdir p) = true ∧ 2 ≤ q.length ∧ s.fs.exists q = false ∧ p ≠ q ∧
     s.fs.isDir (parentOf q) = true ∧ watchedDir s.fs true (parentOf p) = true ∧ watchedDir s.fs true (parentOf q) = true) ∨
   (∃ o q1 q2 e, b = [.rename o q1, .rename q1 q2] ∧ RenameOK s.fs o q1 e ∧ RenameOK s.fs o q2 e ∧ e.isDir = true ∧
@@ -127,7 +127,7 @@ theorem okBurst_of_check (s : Sys) (b : List Op) (h : okBurstB s b = true) : okB
   simp only [okBurstB, Bool.or_eq_true] at h
   rcases h with ((((h | h) | h) | h) | h) | h
   · exact Or.inl (allFile_of_check s b h)
-  · exact Or.inr (Or.inl (allGrow_of_check s b h))
+  · exact Or.inr (Or.inl (allFill_of_check s b h))
   · unfold mkRenameB at h
     split at h
     · next p p' q =>
